@@ -139,8 +139,8 @@ pub fn run(ctx: &Ctx, model: &mut Model, rep: &mut Report) {
         }
         let (k, t) = (v["key"].as_str().unwrap_or("a"), v["text"].as_str().unwrap_or(""));
         rep.evaluations += 1;
-        if let Some(what) = check_doc(k, t) {
-            rep.fail(json!({"kind": "content", "key": k, "text": t, "what": what}));
+        if let Some(what) = crate::act::with_via(crate::act::via_from(&v["via"]), || check_doc(k, t)) {
+            rep.fail(json!({"kind": "content", "key": k, "text": t, "via": v["via"], "what": what}));
         }
         return;
     }
@@ -214,8 +214,9 @@ pub fn run(ctx: &Ctx, model: &mut Model, rep: &mut Report) {
                 rep.count("corr_skipped_unmodelled_inline_or_reader_panic");
             }
         }
-        if let Some(what) = check_doc(&key, &text) {
-            rep.fail(json!({"kind": "content", "key": key, "text": text, "what": what}));
+        let via = crate::act::via_for(i as u64);
+        if let Some(what) = crate::act::with_via(via, || check_doc(&key, &text)) {
+            rep.fail(json!({"kind": "content", "key": key, "text": text, "via": format!("{:?}", via), "what": what}));
         }
     }
     // inside a library: export of every note keeps its atoms
